@@ -1,13 +1,31 @@
 (** C05 monitor: an object just read or reported present survives
-    old_blocks more block allocations; an immediate repeat writes nothing. *)
+    old_blocks more block allocations; an immediate repeat writes nothing.
+
+    Retention is split by the moment at which the touch is stamped with the
+    push-back count:
+    - clause 1 (proved for the model, all schedules: Store/P05*.v): the
+      stamp is taken when the object was actually placed - Get: when the
+      reader was obtained (OGetOpen parks); single-digest FindMissing: at
+      return; multi-digest FindMissing: at the START of the call (the bound
+      reduced by the push-backs performed inside the call);
+    - clause 5 (finding F10): a loss that violates only the LATE stamp of a
+      Get (taken when the reader is consumed: a reader held open across
+      rotations);
+    - clause 6 (finding F11): a loss within c_old push-backs of the RETURN of
+      a multi-digest FindMissing, but outside the reduced bound (refreshes
+      for later digests of the call age the earlier ones).
+    Clauses 2/3/4: an immediately repeated Get / single-digest FindMissing /
+    multi-digest FindMissing writes data (4 = finding F8). *)
 From BBS Require Import Common.Sx Store.Model Run.RStore Run.R01.
 Open Scope Z_scope.
 
 Record m05 := {
-  t_gets : list (nat * (nat * nat));
-  t_touched : list ((nat * nat) * nat);   (* (obj, inst) -> pushbacks at the time of the touch *)
+  t_gets : list (nat * ((nat * nat) * nat));   (* tid -> (obj, inst), push-backs when the reader was obtained *)
+  t_touched : list ((nat * nat) * nat);        (* (obj, inst), early stamp: clause 1 *)
+  t_late_get : list ((nat * nat) * nat);       (* Get, stamp at consumption: clause 5 *)
+  t_late_fm : list ((nat * nat) * nat);        (* multi-digest FindMissing, stamp at return: clause 6 *)
   t_corrupt : bool;
-  t_prev : option (op * bool * Z);        (* previous complete operation: op, succeeded, writes *)
+  t_prev : option (op * bool * Z);             (* previous complete operation: op, succeeded, writes *)
   t_viol : list Z;
 }.
 
@@ -15,81 +33,110 @@ Definition same_key (w : world) (a b : nat * nat) : bool :=
   Nat.eqb (fst a) (fst b) &&
   (if c_hier (w_cfg w) || c_inst_keys (w_cfg w) then Nat.eqb (snd a) (snd b) else true).
 
-Definition lost_too_early (w : world) (m : m05) (oi : nat * nat) (pb : nat) : bool :=
-  negb (t_corrupt m) &&
-  existsb (fun '(k, pb0) => same_key w k oi && Nat.leb (pb - pb0) (c_old (w_cfg w))) (t_touched m).
+(** touched (under the same key) at most c_old push-backs ago *)
+Definition recent (w : world) (l : list ((nat * nat) * nat)) (oi : nat * nat) (pb : nat) : bool :=
+  existsb (fun '(k, pb0) => same_key w k oi && Nat.leb (pb - pb0) (c_old (w_cfg w))) l.
+
+(** clauses violated by the loss of [oi] observed at push-back count [pb] *)
+Definition loss_clauses (w : world) (m : m05) (oi : nat * nat) (pb : nat) : list Z :=
+  if t_corrupt m then []
+  else if recent w (t_touched m) oi pb then [1]
+  else (if recent w (t_late_get m) oi pb then [5] else []) ++
+       (if recent w (t_late_fm m) oi pb then [6] else []).
+
+Definition m_setgets (m : m05) (g : list (nat * ((nat * nat) * nat))) : m05 :=
+  {| t_gets := g; t_touched := t_touched m; t_late_get := t_late_get m; t_late_fm := t_late_fm m;
+     t_corrupt := t_corrupt m; t_prev := t_prev m; t_viol := t_viol m |}.
+Definition m_touch (m : m05) (oi : nat * nat) (pb : nat) : m05 :=
+  {| t_gets := t_gets m; t_touched := (oi, pb) :: t_touched m; t_late_get := t_late_get m;
+     t_late_fm := t_late_fm m; t_corrupt := t_corrupt m; t_prev := t_prev m; t_viol := t_viol m |}.
+Definition m_late_get (m : m05) (oi : nat * nat) (pb : nat) : m05 :=
+  {| t_gets := t_gets m; t_touched := t_touched m; t_late_get := (oi, pb) :: t_late_get m;
+     t_late_fm := t_late_fm m; t_corrupt := t_corrupt m; t_prev := t_prev m; t_viol := t_viol m |}.
+Definition m_late_fm (m : m05) (oi : nat * nat) (pb : nat) : m05 :=
+  {| t_gets := t_gets m; t_touched := t_touched m; t_late_get := t_late_get m;
+     t_late_fm := (oi, pb) :: t_late_fm m; t_corrupt := t_corrupt m; t_prev := t_prev m; t_viol := t_viol m |}.
+Definition m_viol (m : m05) (v : list Z) : m05 :=
+  {| t_gets := t_gets m; t_touched := t_touched m; t_late_get := t_late_get m; t_late_fm := t_late_fm m;
+     t_corrupt := t_corrupt m; t_prev := t_prev m; t_viol := t_viol m ++ v |}.
+Definition m_setprev (m : m05) (p : option (op * bool * Z)) : m05 :=
+  {| t_gets := t_gets m; t_touched := t_touched m; t_late_get := t_late_get m; t_late_fm := t_late_fm m;
+     t_corrupt := t_corrupt m; t_prev := p; t_viol := t_viol m |}.
+Definition m_setcorrupt (m : m05) : m05 :=
+  {| t_gets := t_gets m; t_touched := t_touched m; t_late_get := t_late_get m; t_late_fm := t_late_fm m;
+     t_corrupt := true; t_prev := None; t_viol := t_viol m |}.
+
+(** the touches of a successful FindMissing: early stamp [pbe], return stamp [pb] *)
+Definition m_touch_fm (multi : bool) (pbe pb : nat) (m : m05) (oi : nat * nat) : m05 :=
+  let m1 := m_touch m oi pbe in if multi then m_late_fm m1 oi pb else m1.
 
 Definition m05_step (w : world) (m : m05) (x : op * (state * state * out) * sx) : m05 :=
   let '(e, (s0, s1, mo), o) := x in
   let pb := s_pushbacks s1 in
-  let touch (m : m05) (oi : nat * nat) : m05 :=
-    {| t_gets := t_gets m; t_touched := (oi, pb) :: t_touched m; t_corrupt := t_corrupt m;
-       t_prev := t_prev m; t_viol := t_viol m |} in
-  let viol (m : m05) (v : list Z) : m05 :=
-    {| t_gets := t_gets m; t_touched := t_touched m; t_corrupt := t_corrupt m;
-       t_prev := t_prev m; t_viol := t_viol m ++ v |} in
-  let setprev (m : m05) (p : option (op * bool * Z)) : m05 :=
-    {| t_gets := t_gets m; t_touched := t_touched m; t_corrupt := t_corrupt m;
-       t_prev := p; t_viol := t_viol m |} in
   match e with
   | OGetOpen tid ob i =>
       if Z.eqb (ob_kind o) 1 then
-        setprev {| t_gets := (tid, (ob, i)) :: t_gets m; t_touched := t_touched m; t_corrupt := t_corrupt m;
-                   t_prev := t_prev m; t_viol := t_viol m |}
-                (match t_prev m with
-                 | Some (OGetOpen _ ob' i', true, _) =>
-                     if Nat.eqb ob ob' && Nat.eqb i i' then Some (OGetOpen tid ob i, false, ob_writes o) else None
-                 | _ => None
-                 end)
+        m_setprev (m_setgets m ((tid, ((ob, i), pb)) :: t_gets m))
+                  (match t_prev m with
+                   | Some (OGetOpen _ ob' i', true, _) =>
+                       if Nat.eqb ob ob' && Nat.eqb i i' then Some (OGetOpen tid ob i, false, ob_writes o) else None
+                   | _ => None
+                   end)
       else
-        let m1 := if Z.eqb (ob_code o) cNotFound && lost_too_early w m (ob, i) pb then viol m [1] else m in
-        setprev m1 None
+        let m1 := if Z.eqb (ob_code o) cNotFound then m_viol m (loss_clauses w m (ob, i) pb) else m in
+        m_setprev m1 None
   | OGetConsume tid =>
       match assoc (t_gets m) tid with
-      | Some oi =>
-          let m1 := {| t_gets := unassoc (t_gets m) tid; t_touched := t_touched m; t_corrupt := t_corrupt m;
-                       t_prev := t_prev m; t_viol := t_viol m |} in
+      | Some (oi, pb_open) =>
+          let m1 := m_setgets m (unassoc (t_gets m) tid) in
           (* repeat: previous op was GetOpen of the same object marked "repeat of a successful Get" *)
           let m2 := match t_prev m with
                     | Some (OGetOpen tid' _ _, false, w0) =>
                         if Nat.eqb tid tid' && ob_ok o && (0 <=? ob_writes o) && (0 <? w0 + ob_writes o)
-                        then viol m1 [2] else m1
+                        then m_viol m1 [2] else m1
                     | _ => m1
                     end in
-          if ob_ok o then setprev (touch m2 oi) (Some (OGetOpen tid (fst oi) (snd oi), true, 0))
-          else setprev m2 None
-      | None => setprev m None
+          if ob_ok o then m_setprev (m_late_get (m_touch m2 oi pb_open) oi pb)
+                                    (Some (OGetOpen tid (fst oi) (snd oi), true, 0))
+          else m_setprev m2 None
+      | None => m_setprev m None
       end
   | OFindMissing ds =>
       if Z.eqb (ob_kind o) 2 && Z.eqb (ob_code o) 0 then
         let missing := sx_nats (sx_nth o 2) in
         let numbered := enumerate 0 ds in
-        let lost := existsb (fun '(pos, oi) => existsb (Nat.eqb pos) missing && lost_too_early w m oi pb) numbered in
-        let m1 := if lost then viol m [1] else m in
+        let lost := flat_map (fun '(pos, oi) => if existsb (Nat.eqb pos) missing
+                                                then loss_clauses w m oi pb else []) numbered in
+        let m1 := m_viol m lost in
         let m2 := match t_prev m with
                   | Some (OFindMissing ds', true, _) =>
                       if sx_eqb (of_nats (map fst ds ++ map snd ds)) (of_nats (map fst ds' ++ map snd ds'))
                          && (0 <? ob_writes o)
                       then (* 3: at most one digest present; 4: several present digests (their
                               refreshes can age one another inside one call: finding F8) *)
-                           viol m1 [if Nat.leb (length ds - length missing) 1 then 3 else 4]
+                           m_viol m1 [if Nat.leb (length ds - length missing) 1 then 3 else 4]
                       else m1
                   | _ => m1
                   end in
+        let multi := Nat.ltb 1 (length ds) in
+        let pbe := if multi then s_pushbacks s0 else pb in
         let m3 := fold_left (fun acc '(pos, oi) =>
-                               if existsb (Nat.eqb pos) missing then acc else touch acc oi) numbered m2 in
-        setprev m3 (Some (OFindMissing ds, true, 0))
-      else setprev m None
-  | OCorrupt _ _ _ =>
-      {| t_gets := t_gets m; t_touched := t_touched m; t_corrupt := true; t_prev := None; t_viol := t_viol m |}
-  | _ => if Z.eqb (ob_kind o) 3 then m else setprev m None
+                               if existsb (Nat.eqb pos) missing then acc else m_touch_fm multi pbe pb acc oi)
+                            numbered m2 in
+        m_setprev m3 (Some (OFindMissing ds, true, 0))
+      else m_setprev m None
+  | OCorrupt _ _ _ => m_setcorrupt m
+  | _ => if Z.eqb (ob_kind o) 3 then m else m_setprev m None
   end.
+
+Definition m05_init : m05 :=
+  {| t_gets := []; t_touched := []; t_late_get := []; t_late_fm := []; t_corrupt := false;
+     t_prev := None; t_viol := [] |}.
 
 Definition mon05 (inp obs : sx) : list Z :=
   let w := dec_world inp in
   let es := dec_ops inp in
   let sts := run_states w (init_state (w_cfg w)) es in
-  dedupZ (t_viol (fold_left (m05_step w) (combine (combine es sts) (sx_list obs))
-                            {| t_gets := []; t_touched := []; t_corrupt := false; t_prev := None; t_viol := [] |})).
+  dedupZ (t_viol (fold_left (m05_step w) (combine (combine es sts) (sx_list obs)) m05_init)).
 
 Definition judge05 (inp obs : sx) : sx := judge_store mon05 inp obs.
